@@ -467,11 +467,9 @@ Qed.
 
 Lemma invoke_let_env e s : env_eq true nonsentinel (r_env s) (invoke_let rec e s).
 Proof.
-  destruct e; cbn [invoke_let]; try fin.
-  - destruct (env_set _ _ _ _); fin.
-  - apply let_member_env.
-  - apply let_item_env.
-  - apply let_slice_env.
+  destruct e; cbn [invoke_let]; try fin;
+    first [ apply let_member_env | apply let_item_env | apply let_slice_env
+          | (destruct (env_set _ _ _ _); fin) | call_rec (r_env s) ].
 Qed.
 
 (* ---------------- calls ---------------- *)
@@ -499,17 +497,22 @@ Proof.
   unfold apply_fn. destruct f; try exact I; [apply run_vm_func_env|apply host_call_env].
 Qed.
 
+Lemma poll_env s c s0 : poll cancel_at s = (c, s0) -> r_env s0 = r_env s.
+Proof. unfold poll. intros H. injection H as _ <-. reflexivity. Qed.
+
 Lemma arity_error_env b want got s : env_eq b nonsentinel (r_env s) (arity_error want got s).
 Proof. unfold arity_error. fin. Qed.
 
-Lemma call_function_env f args va go s : env_eq true nonsentinel (r_env s) (call_function rec f args va go s).
+Lemma call_function_env f args va go s : env_eq true nonsentinel (r_env s) (call_function cancel_at rec f args va go s).
 Proof.
   unfold call_function. cbv zeta.
   destruct go; [exact I|].
   match goal with |- env_eq _ _ _ (match ?x with _ => _ end) => destruct x as [[[num_in fvar] isvm]|] end; [|exact I].
   assert (Hfin : forall argv cs s1, r_env s1 = r_env s ->
-                 env_eq true nonsentinel (r_env s) (rec (CApply f argv cs) (set_rv s1 rv_nil))).
-  { intros argv cs s1 H1. call_rec (r_env s). }
+                 env_eq true nonsentinel (r_env s) (call_finish cancel_at rec f argv cs s1)).
+  { intros argv cs s1 H1. unfold call_finish.
+    destruct (poll cancel_at s1) as [cancelled s2] eqn:Hp. pose proof (poll_env _ _ _ Hp) as H2.
+    destruct cancelled; [right; split; [simp; congruence|exact I]|]. call_rec (r_env s). }
   repeat match goal with |- env_eq _ _ _ (if ?c then _ else _) => destruct c end;
     try (apply arity_error_env); try (apply Hfin; reflexivity).
   all: try (apply eval_rvals_env; [imp_solve|reflexivity|]; intros; apply Hfin; assumption).
@@ -676,8 +679,6 @@ Proof.
       first [call_rec (r_env s) | (simp; congruence) | (right; split; [simp; congruence|ep_solve])].
 Qed.
 
-Lemma poll_env s c s0 : poll cancel_at s = (c, s0) -> r_env s0 = r_env s.
-Proof. unfold poll. intros H. injection H as _ <-. reflexivity. Qed.
 
 Ltac split_H H :=
   destruct H as [[_ H]|[H ?]]; [first [discriminate H | (left; split; [reflexivity|exact H])]|].
